@@ -324,3 +324,56 @@ with spec_pairs_until (f : nat) (b : list N) {struct f} : option (list (sdata * 
   end.
 
 Definition spec_fuel (b : list N) : nat := 2 * length b + 2.
+
+(* ------------------------------------------------------------------ *)
+(* RFC 8949 3.2.3: each chunk of an indefinite-length text string must itself be a valid text string,
+   i.e. well-formed UTF-8 (RFC 3629, table 3-7 of Unicode: no overlongs, no surrogates, <= U+10FFFF) *)
+Definition ucont (b : N) : bool := (128 <=? b) && (b <=? 191).
+
+Fixpoint utf8_valid_f (f : nat) (s : list N) : bool :=
+  match f with
+  | O => match s with [] => true | _ => false end
+  | S f' =>
+      match s with
+      | [] => true
+      | a :: r =>
+          if a <? 128 then utf8_valid_f f' r
+          else if (194 <=? a) && (a <=? 223) then
+            match r with b :: r' => ucont b && utf8_valid_f f' r' | _ => false end
+          else if (224 <=? a) && (a <=? 239) then
+            match r with
+            | b :: c :: r' =>
+                (if a =? 224 then (160 <=? b) && (b <=? 191) else if a =? 237 then (128 <=? b) && (b <=? 159) else ucont b)
+                && ucont c && utf8_valid_f f' r'
+            | _ => false
+            end
+          else if (240 <=? a) && (a <=? 244) then
+            match r with
+            | b :: c :: d :: r' =>
+                (if a =? 240 then (144 <=? b) && (b <=? 191) else if a =? 244 then (128 <=? b) && (b <=? 143) else ucont b)
+                && ucont c && ucont d && utf8_valid_f f' r'
+            | _ => false
+            end
+          else false
+      end
+  end.
+Definition utf8_valid (s : list N) : bool := utf8_valid_f (length s) s.
+
+(* every chunk of every indefinite-length text string in the tree is valid UTF-8 *)
+Fixpoint chunks_utf8 (t : wtree) : bool :=
+  match t with
+  | TTextI cs => forallb (fun c => utf8_valid (snd c)) cs
+  | TArr _ l | TArrI l => forallb chunks_utf8 l
+  | TMap _ l | TMapI l => forallb (fun kv => chunks_utf8 (fst kv) && chunks_utf8 (snd kv)) l
+  | TTag _ _ v => chunks_utf8 v
+  | _ => true
+  end.
+
+(* all texts made of at most k characters drawn from: a (1 byte), e-acute (2), euro sign (3), U+1F600 (4) *)
+Definition sample_runes : list (list N) := [[97]; [195; 169]; [226; 130; 172]; [240; 159; 152; 128]].
+Fixpoint texts_exact (k : nat) : list (list N) :=
+  match k with
+  | O => [[]]
+  | S k' => flat_map (fun r => map (fun s => r ++ s) (texts_exact k')) sample_runes
+  end.
+Definition texts_upto (k : nat) : list (list N) := flat_map texts_exact (seq 0 (S k)).
